@@ -453,7 +453,8 @@ def judge(qn, cls, args, kwargs, *, mode="value", scale=1.0, want_repro=True):
         # the property is about what executing the graph gives, so a checker complaint is counted, never a violation)
         seq_out = (len(flat) != len(want_t)) or any(isinstance(o.type, E.ir.SequenceType) for o in flat) or \
             (stag.startswith("seq") and not isinstance(outs, (list, tuple)))
-        if seq_out:
+        if seq_out or (isinstance(mode, dict) and mode.get("skip")):
+            # sequence outputs / outputs that are deliberately not compared cannot be given torch's type+shape: no checker pass
             return {"status": "ok", "events": ev}
         try:
             for o, t in zip(flat, want_t):
